@@ -13,6 +13,8 @@ CONSTANTS
   ClassComments <- NoComment
   TopAlpha <- TopsAll
   MaxTops = 2
+  AliasAlpha <- None
+  MaxAliases = 0
   CmdKinds <- None
 INVARIANT SafeVis
 INVARIANT SafeAccess
